@@ -19,6 +19,7 @@ use crate::{DatabaseError, Result, StorageError};
 use alloc::boxed::Box;
 use alloc::collections::BTreeMap;
 use alloc::format;
+use alloc::string::ToString;
 use alloc::sync::Arc;
 use alloc::vec;
 use alloc::vec::Vec;
@@ -624,6 +625,14 @@ impl TransactionalMemory {
                 .copy_from_slice(&header.to_bytes(true));
             storage.flush()?;
         }
+        // A file cut off inside the header has a valid magic number but no header to read: report
+        // it as corrupt rather than asking the backend for bytes beyond the end of the storage.
+        if storage.raw_file_len()? < DB_HEADER_SIZE as u64 {
+            return Err(StorageError::Corrupted(
+                "File truncated below the database header".to_string(),
+            )
+            .into());
+        }
         let header_bytes = storage.read_direct(0, DB_HEADER_SIZE)?;
         let unrepaired =
             UnrepairedDatabaseHeader::from_bytes(&header_bytes, page_size.try_into().unwrap())?;
@@ -1085,7 +1094,7 @@ impl TransactionalMemory {
         // Trim surplus file space, before finalizing the commit
         let shrunk = if !matches!(shrink_policy, ShrinkPolicy::Never) {
             let force = matches!(shrink_policy, ShrinkPolicy::Maximum);
-            let mut shrunk = Self::try_shrink(&mut state, force)?;
+            let shrunk = Self::try_shrink(&mut state, force)?;
             // One call trims only the last region, and dropping a wholly free trailing region
             // exposes the free tail of the region before it. A maximum shrink must give that back
             // too, or compact() -- whose probe allocation can grow the file across a region
